@@ -29,7 +29,7 @@ func sourcePins(repo string) map[string]string {
 			if strings.HasSuffix(fn, "_test.go") || strings.HasPrefix(filepath.Base(fn), "verif_") {
 				continue
 			}
-			f, err := parser.ParseFile(fset, fn, nil, parser.SkipObjectResolution)
+			f, err := parser.ParseFile(fset, fn, nil, 0) // with object resolution: locals are alpha-normalised below
 			if err != nil {
 				fatalf("pins: %v", err)
 			}
@@ -48,8 +48,12 @@ func sourcePins(repo string) map[string]string {
 						}
 					}
 					d.Doc = nil
+					alphaNormalise(d)
 					var buf bytes.Buffer
 					_ = printer.Fprint(&buf, token.NewFileSet(), d)
+					if os.Getenv("VERIF_PIN_DEBUG") == name {
+						os.Stderr.Write(buf.Bytes())
+					}
 					sum := sha256.Sum256(buf.Bytes())
 					out[name] = hex.EncodeToString(sum[:8])
 				case *ast.GenDecl:
@@ -81,6 +85,41 @@ func sourcePins(repo string) map[string]string {
 		}
 	}
 	return out
+}
+
+// alphaNormalise renames every identifier bound inside the declaration (parameters, results, receivers,
+// local variables, constants, types and labels) to a positional name, so that a pin is insensitive to the
+// names a developer chose for locals. Binding is taken from go/parser's object resolution, which is exact
+// for function-scope objects.
+func alphaNormalise(d *ast.FuncDecl) {
+	// pass 1: which objects are bound inside the declaration (Object.Pos looks the name up, so before renaming)
+	local := map[*ast.Object]bool{}
+	var order []*ast.Ident
+	ast.Inspect(d, func(n ast.Node) bool {
+		id, ok := n.(*ast.Ident)
+		if !ok || id.Obj == nil || id.Name == "_" {
+			return true
+		}
+		if _, seen := local[id.Obj]; !seen {
+			pos := id.Obj.Pos()
+			local[id.Obj] = pos >= d.Pos() && pos < d.End()
+		}
+		order = append(order, id)
+		return true
+	})
+	// pass 2: positional names in order of first occurrence
+	names := map[*ast.Object]string{}
+	for _, id := range order {
+		if !local[id.Obj] {
+			continue
+		}
+		nm, ok := names[id.Obj]
+		if !ok {
+			nm = "v" + itoa(len(names))
+			names[id.Obj] = nm
+		}
+		id.Name = nm
+	}
 }
 
 func pinsTool(repo, outPath string) {
